@@ -124,7 +124,7 @@ def plan(tier):
                         "address plus one of the two wrap-around addresses",
                         "restored PSR values have J = 0 and reserved bits 23:20 = 0",
                         "instances the model classes UNPREDICTABLE are not compared"],
-        "deadline_s": 100 if tier == "quick" else 1700,
+        "deadline_s": 300 if tier == "quick" else 1700,
     }
 
 
